@@ -37,6 +37,8 @@ def cases(tier, seed):
     n = 1500 if tier == "quick" else 250000
     out = [{"t": "tree", "rep": i, "seed": seed} for i in range(n)]
     out.append({"t": "reject", "seed": seed})
+    for i in range(4 if tier == "quick" else 60):
+        out.append({"t": "large", "rep": i, "seed": seed})
     for i in range(24 if tier == "quick" else 600):
         out.append({"t": "exotic", "rep": i, "seed": seed})
     return out
@@ -136,6 +138,8 @@ def run_case(case, ctx):
         return rejections(case, ctx)
     if case["t"] == "exotic":
         return exotic(case, ctx)
+    if case["t"] == "large":
+        return large_batch(case, ctx)
     rng = np_rng(ID, case["seed"], case["rep"])
     kind = gen.KINDS[case["rep"] % 3]
     nv = int(rng.integers(2, 5))
@@ -250,6 +254,39 @@ def run_case(case, ctx):
     ctx.seen("kinds", kind)
     ctx.sample({"expression": canon[:200], "depth": d, "leaves": nleaves, "scalars": nscal,
                 "values": np.round(want, 6).tolist()[:4]})
+
+
+def large_batch(case, ctx):
+    """A composite evaluated on a batch far larger than any unit test uses (several hundred thousand rows, sizes around
+    powers of two): the value of row i is the arithmetic on the leaves' values for the SAME full batch - also for SWAP, whose
+    value for a row depends on its neighbour in the batch, so evaluating the batch in pieces is not equivalent."""
+    from qucumber.observables import SWAP, NeighbourInteraction, SigmaX, SigmaZ
+
+    rng = np_rng(ID, case["seed"], "large", case["rep"])
+    kind = gen.KINDS[case["rep"] % 3]
+    nv = int(rng.integers(2, 6))
+    am, ph = gen.draw_model(rng, kind, nv, 2, 1, scales=[0.3, 0.8])
+    st = gen.make_state(kind, am, ph)
+    B = [2 ** 20 // nv + 3, 300007, 2 ** 18 + 1, 2 ** 16 + 5][case["rep"] % 4]
+    batch = torch.tensor(rng.integers(0, 2, size=(B, nv)), dtype=torch.double)
+    A = sorted(rng.choice(nv, size=int(rng.integers(1, nv)), replace=False).tolist())
+    comp = 1.5 * SWAP(A) - SigmaZ() + 0.25 if case["rep"] % 2 == 0 else 1 - (SWAP(A) + 2 * NeighbourInteraction(c=1)) - SigmaX() * 0.5
+    got = ctx.lib("composite.apply(large batch)", comp.apply, st, batch, tags={"rows": B})
+    sw, sz = SWAP(A).apply(st, batch).numpy(), SigmaZ().apply(st, batch).numpy()
+    if case["rep"] % 2 == 0:
+        want = 1.5 * sw - sz + 0.25
+    else:
+        want = 1 - (sw + 2 * NeighbourInteraction(c=1).apply(st, batch).numpy()) - SigmaX().apply(st, batch).numpy() * 0.5
+    ctx.count("large_batches_evaluated")
+    ctx.seen("large_batch_rows", B)
+    g = got.detach().numpy()
+    bad = np.abs(g - want) > 1e-11 * (1 + np.abs(want)) if g.shape == want.shape else np.array([True])
+    if bad.any():
+        j = int(np.argmax(bad))
+        ctx.violation("composite-value", f"composite with a SWAP leaf on a batch of {B} rows: row {j} evaluates to "
+                      f"{g[j] if g.shape == want.shape else g.shape!r}, the arithmetic on the leaves' values for the same batch gives {want[j] if g.shape == want.shape else want.shape!r} "
+                      f"({int(bad.sum())} rows differ)", tags={"rows": B, "large_batch": True})
+    ctx.mark_nontrivial(f"large:{B}:{case['rep']}")
 
 
 def rejections(case, ctx):
